@@ -166,13 +166,13 @@ def scan(root):
     return out
 
 
-def run_tool(cmd, counters, timeout=300):
+def run_tool(cmd, counters, timeout=300, cwd=None):
     e = dict(os.environ)
     e['PYTHONPATH'] = env.REPO
     e['PYTHONHASHSEED'] = '0'
     e['LC_ALL'] = 'C.UTF-8'
     counters['tool_runs'] = counters.get('tool_runs', 0) + 1
-    p = subprocess.run(['/venv/bin/python'] + cmd, stdout=subprocess.PIPE, stderr=subprocess.PIPE, env=e, timeout=timeout)
+    p = subprocess.run(['/venv/bin/python'] + cmd, stdout=subprocess.PIPE, stderr=subprocess.PIPE, env=e, timeout=timeout, cwd=cwd)
     return p.returncode, p.stdout.decode('utf-8', 'replace'), p.stderr.decode('utf-8', 'replace')
 
 
@@ -246,6 +246,19 @@ def one_case(cs, idx, counters):
                 hidden_names = files[:rng.choice([1, 2, 3])]
                 for j, hn in enumerate(hidden_names):
                     cmd += [['-exclude', '-m', '-x'][j % 3], hn]
+        view_hidden = {'iso': [], 'joliet': [], 'udf': []}
+        if not opts['dups'] and rng.random() < 0.25:
+            # -hide / -hide-joliet / -hide-udf take a file out of one view only
+            import re as _re
+            plain = sorted({r.rsplit('/', 1)[-1] for r, (k, _) in desc.items() if k == 'file' and _re.fullmatch(r'[A-Za-z0-9._-]+', r.rsplit('/', 1)[-1])
+                            and r.rsplit('/', 1)[-1] not in ('bootimg.bin', 'boot.cat') and not r.startswith('efi')} - set(hidden_names))
+            rng.shuffle(plain)
+            for vw, flag, on in (('joliet', '-hide-joliet', opts['joliet']), ('udf', '-hide-udf', opts['udf']), ('iso', '-hide', opts['joliet'] or opts['udf'])):
+                if on and plain and rng.random() < 0.6:
+                    nm_ = plain.pop()
+                    view_hidden[vw].append(nm_)
+                    cmd += [flag, nm_]
+            counters['per_view_hide_cases'] = counters.get('per_view_hide_cases', 0) + (1 if any(view_hidden.values()) else 0)
         if opts.get('nobak'):
             for rel, data in (('old.bak', b'backup\n'), ('note~', b'tilde\n'), ('x#y', b'hash\n')):
                 with open(os.path.join(src, rel), 'wb') as f:
@@ -312,7 +325,7 @@ def one_case(cs, idx, counters):
                     if got_ != want_ and nm not in hidden_names:
                         vio.append({'key': 'boot:load-rba', 'detail': '%s: entry %d: sector %d does not hold the bytes of %s' % (optkey, k, e.load_rba, nm)})
         # plain view: every source file exactly once under a legal, distinct identifier
-        files_src = [r for r, (k, _) in expected.items() if k == 'file']
+        files_src = [r for r, (k, _) in expected.items() if k == 'file' and r.rsplit('/', 1)[-1] not in view_hidden['iso']]
         # (the placeholder a relocated directory leaves at its original place is a record with a CL
         # entry, not a file of the tree)
         iso_files = {p: n for p, n in dec.pvd.tree.items() if n.kind == 'file'
@@ -343,14 +356,19 @@ def one_case(cs, idx, counters):
                 continue
             dest = os.path.join(tmp, 'x-' + view)
             os.makedirs(dest)
-            rc, out, err = run_tool([EXTRACT, '-path-type', view, '-extract-to', dest, iso], counters)
+            # (the destination given relative to the working directory for every other case)
+            if idx % 2:
+                rc, out, err = run_tool([EXTRACT, '-path-type', view, '-extract-to', 'x-' + view, iso], counters, cwd=tmp)
+            else:
+                rc, out, err = run_tool([EXTRACT, '-path-type', view, '-extract-to', dest, iso], counters)
             if rc != 0:
                 last = (err.strip().splitlines() or ['?'])[-1]
                 vio.append({'key': 'view:%s:crash:%s' % (view, last.split(':')[0].split('.')[-1][:40]), 'detail': '%s: %s' % (optkey, last[:200])})
                 continue
             got = scan(dest)
             counters['views_compared'] = counters.get('views_compared', 0) + 1
-            exp = dict(expected)
+            hid_ = view_hidden['iso' if view == 'rockridge' else view]
+            exp = {r: v for r, v in expected.items() if not (v[0] == 'file' and r.rsplit('/', 1)[-1] in hid_)}
             if opts['boot']:
                 exp['boot.cat'] = ('file', None)
             for r in sorted(set(exp) - set(got)):
